@@ -47,6 +47,13 @@ func main() {
 		seed = uint64(s)
 	}
 	o := sim.Options{Dir: *dir, Out: *out, Seed: seed, Thorough: *tier == "thorough", Replay: *replay, Workers: *workers, RunsMul: *mul, Only: *only}
+	os.Setenv("VERIF_C11_SEED", strconv.FormatUint(seed, 10))
+	os.Setenv("VERIF_C11_TIER", *tier)
+	if id == "c11-child" {
+		var from, to uint64
+		fmt.Sscanf(os.Getenv("VERIF_C11_RANGE"), "%d-%d", &from, &to)
+		os.Exit(props.C11Child(seed, from, to, *tier == "thorough"))
+	}
 	if id == "selftest" {
 		os.Exit(props.SelfTest(o))
 	}
